@@ -839,3 +839,8 @@ def leak_scan(x, depth=0):
     if isinstance(x, (list, tuple, set, frozenset)):
         return any(leak_scan(y, depth + 1) for y in x)
     return False
+
+
+def sjoin(sep, parts):
+    """sep.join(parts) for harness code (which is not AST-rewritten)"""
+    return SymStr.join(sep, list(parts))
